@@ -619,6 +619,12 @@ pub fn exec_step<const N: usize>(
     let post = if consumed { Snap::default() } else { sut.snap() };
     let post_tags: Vec<Tag> = post.iter.iter().map(|id| tag_of(*id)).collect();
     let held = hold.ids();
+    if matches!(act, Act::Drain(_, _, Fin::Forget)) && !panicked && post.ok {
+        // documented: a leaked drain may lose arbitrary elements; they are gone, not "leaked by a bug"
+        let mut reach = post.iter.clone();
+        reach.extend(held.iter().copied());
+        ledger::forgive_unreachable(&reach);
+    }
     let live = ledger::live_ids();
     // relocation: surviving ids whose slot changed
     let mut relocated = vec![];
@@ -673,6 +679,11 @@ pub fn apply_fast<const N: usize>(sut: &mut Sut<N>, act: &Act) -> bool {
     }));
     drop(hold);
     drop(args);
+    if matches!(act, Act::Drain(_, _, Fin::Forget)) && r.is_ok() && sut.b.is_some() {
+        if let Ok(ids) = catch_unwind(AssertUnwindSafe(|| sut.ids())) {
+            ledger::forgive_unreachable(&ids);
+        }
+    }
     r.is_ok()
 }
 
